@@ -38,14 +38,14 @@ for r in mine:
     crate = r["file"].split("/")[0]
     pk = {"penguin-mux": ["-p", "penguin-mux", "-p", "rusty-penguin"], "cow-bytes": ["-p", "cow-bytes", "-p", "penguin-mux"],
           "penguin-socks": ["-p", "penguin-socks", "-p", "rusty-penguin"], "penguin": ["-p", "rusty-penguin"]}[crate]
-    cmd = "ip link set lo up; cd %s; timeout 600 cargo test %s --no-fail-fast --offline 2>&1" % (WT, " ".join(pk))
+    cmd = "ip link set lo up; cd %s; timeout 1500 cargo test %s --no-fail-fast --offline 2>&1" % (WT, " ".join(pk))
     t = run(["unshare", "-n", "bash", "-c", cmd], env=env)
     out = t.stdout
     failed = sorted(set(re.findall(r"^test (\S+) \.\.\. FAILED", out, re.M)) - {"server::service::tests::test_backend_tls", "tests::test_it_works_dns_v4"})
     compiled = "test result:" in out
     status = "TEST-KILLED" if failed else ("NO-COMPILE" if not compiled else "TRUE-SURVIVOR")
-    if "timed out" in out or t.returncode == 124:
-        status = "TEST-KILLED"; failed = failed or ["(timeout)"]
+    if t.returncode == 124:
+        status = "TIMEOUT-OR-HANG"
     r2 = dict(r, suite=status, failed=failed[:4])
     fh.write(json.dumps(r2) + "\n"); fh.flush()
 run(["git", "-C", WT, "checkout", "--", "."])
